@@ -29,21 +29,37 @@ struct MockPool {
   int unused;
 };
 
+// Heap holder of a stored closure.  The leading tag gives the allocation a typed first use (the lifter
+// types a heap block by the first cast of the pointer), so the closure's members are typed fields
+// rather than bytes of an anonymous buffer.
+template <typename C>
+struct Holder {
+  int tag;
+  C c;
+};
+
 template <typename C>
 struct Slots {
-  static C* obj[VF_MAXTASKS];
+  static Holder<C>* obj[VF_MAXTASKS];
   static void run(int k) {
-    C* c = obj[k];  // (not reset: a guarded reset would turn the slot into a symbolic pointer)
-    (*c)();
+    Holder<C>* h = obj[k];  // (not reset: a guarded reset would turn the slot into a symbolic pointer)
+    h->c();
     // destroyed, storage deliberately not freed: a free under a symbolic guard (inline now / later in
     // wait()) makes the liveness of every closure object symbolic for all later accesses
-    c->~C();
+    h->c.~C();
   }
 };
 template <typename C>
-C* Slots<C>::obj[VF_MAXTASKS];
+Holder<C>* Slots<C>::obj[VF_MAXTASKS];
 
-static int g_scheduled, g_executed, g_stored, g_waits, g_depth, g_applications;
+// ghost (separate global objects rather than adjacent members: the compiler turns the zeroing of
+// adjacent members into one memset, which the symbolic executor applies byte-wise to the whole struct)
+static int g_scheduled;     // closures handed to the set
+static int g_executed;      // closures run to completion
+static int g_stored;        // closures that were queued rather than run inline
+static int g_waits;         // wait() calls
+static int g_depth;         // nesting of task execution
+static int g_applications;  // element applications so far (VF_DEEP)
 
 struct MockTaskSet {
   bool pending[VF_MAXTASKS];
@@ -58,22 +74,13 @@ struct MockTaskSet {
   uint8_t chOrder[VF_MAXTASKS];  // wait(): which pending task runs in round r
   uint8_t chDeepAt;              // VF_DEEP: pick-up before the chDeepAt-th element application ...
   uint8_t chDeepWhich;           // ... of this stored task
-  // ghost (separate objects rather than adjacent members: the compiler turns the zeroing of adjacent
-  // members into one memset, which the symbolic executor applies byte-wise to the whole struct)
-  int& scheduled = g_scheduled;        // closures handed to the set
-  int& executed = g_executed;          // closures run to completion
-  int& stored = g_stored;              // closures that were queued rather than run inline
-  int& waits = g_waits;                // wait() calls
-  int& depth = g_depth;                // nesting of task execution
-  int& applications = g_applications;  // element applications so far (VF_DEEP)
-
   explicit MockTaskSet(ssize_t n) : nthreads(n) {
-    scheduled = 0;
-    executed = 0;
-    stored = 0;
-    waits = 0;
-    depth = 0;
-    applications = 0;
+    g_scheduled = 0;
+    g_executed = 0;
+    g_stored = 0;
+    g_waits = 0;
+    g_depth = 0;
+    g_applications = 0;
     for (int i = 0; i < VF_MAXTASKS; ++i) {
       pending[i] = false;
       chInline[i] = vf_nondet_bool();
@@ -102,10 +109,10 @@ struct MockTaskSet {
 
   void runTask(int i) {
     pending[i] = false;
-    ++depth;
+    ++g_depth;
     runSlot(i);
-    --depth;
-    ++executed;
+    --g_depth;
+    ++g_executed;
   }
 
   // run stored closure k if it is pending (no-op otherwise)
@@ -118,36 +125,50 @@ struct MockTaskSet {
   }
 
   // called by the harness' element functor (VF_DEEP): a pool thread may run one stored closure between
-  // two element applications of a chunk that is executing (only pools with >= 1 thread)
+  // two element g_applications of a chunk that is executing (only pools with >= 1 thread)
   void pickupInFunctor() {
-    int a = applications++;
-    if (nthreads > 0 && depth <= 1 && a == (int)chDeepAt) {
+    int a = g_applications++;
+    if (nthreads > 0 && g_depth <= 1 && a == (int)chDeepAt) {
       runPick(chDeepWhich);
+    }
+  }
+
+  // first half of a schedule: pool-thread pick-up point, slot number
+  template <typename C>
+  int admit() {
+    int k = g_scheduled;
+    vf_check(k < VF_MAXTASKS, "harness bound: more closures scheduled than VF_MAXTASKS");
+    if (k >= VF_MAXTASKS) {
+      return -1;
+    }
+    // a pool thread may pick up one stored closure now (only pools with >= 1 thread have such a thread)
+    if (nthreads > 0 && g_depth == 0 && k > 0 && chPickup[k]) {
+      runPick(chWhich[k]);
+    }
+    vf_check(runSlot == nullptr || runSlot == &Slots<C>::run, "harness bound: one closure type per task set");
+    runSlot = &Slots<C>::run;
+    ++g_scheduled;
+    return k;
+  }
+  // second half: run inline now or leave it queued
+  void dispatch(int k, bool mayInline) {
+    if (mayInline && chInline[k]) {
+      runTask(k);
+    } else {
+      pending[k] = true;
+      ++g_stored;
     }
   }
 
   template <typename F>
   void scheduleImpl(F&& f, bool mayInline) {
     using C = typename std::decay<F>::type;
-    int k = scheduled;
-    vf_check(k < VF_MAXTASKS, "harness bound: more closures scheduled than VF_MAXTASKS");
-    if (k >= VF_MAXTASKS) {
+    int k = admit<C>();
+    if (k < 0) {
       return;
     }
-    // a pool thread may pick up one stored closure now (only pools with >= 1 thread have such a thread)
-    if (nthreads > 0 && depth == 0 && k > 0 && chPickup[k]) {
-      runPick(chWhich[k]);
-    }
-    vf_check(runSlot == nullptr || runSlot == &Slots<C>::run, "harness bound: one closure type per task set");
-    runSlot = &Slots<C>::run;
-    ++scheduled;
-    Slots<C>::obj[k] = new C(std::forward<F>(f));
-    if (mayInline && chInline[k]) {
-      runTask(k);
-    } else {
-      pending[k] = true;
-      ++stored;
-    }
+    Slots<C>::obj[k] = new Holder<C>{k, std::forward<F>(f)};
+    dispatch(k, mayInline);
   }
 
   template <typename F>
@@ -160,22 +181,33 @@ struct MockTaskSet {
     scheduleImpl(std::forward<F>(f), false);
   }
 
+  // gen(i) is evaluated once for every i in [0, count), in increasing order; the closure it returns is
+  // constructed directly in its holder (no intermediate copy)
   template <typename Generator>
-  void scheduleBulk(size_t count, Generator&& gen) {
+  void scheduleBulkImpl(size_t count, Generator&& gen, bool mayInline) {
+    using C = typename std::decay<decltype(gen(size_t{0}))>::type;
     for (size_t i = 0; i < count; ++i) {
-      schedule(gen(i));
+      int k = admit<C>();
+      if (k < 0) {
+        return;
+      }
+      Slots<C>::obj[k] = new Holder<C>{k, gen(i)};
+      dispatch(k, mayInline);
     }
   }
 
   template <typename Generator>
-  void scheduleBulk(size_t count, Generator&& gen, dispenso::ForceQueuingTag fq) {
-    for (size_t i = 0; i < count; ++i) {
-      schedule(gen(i), fq);
-    }
+  void scheduleBulk(size_t count, Generator&& gen) {
+    scheduleBulkImpl(count, std::forward<Generator>(gen), true);
+  }
+
+  template <typename Generator>
+  void scheduleBulk(size_t count, Generator&& gen, dispenso::ForceQueuingTag) {
+    scheduleBulkImpl(count, std::forward<Generator>(gen), false);
   }
 
   bool wait() {
-    ++waits;
+    ++g_waits;
     // drain: every round runs one of the still pending closures, symbolic choice
     for (int r = 0; r < VF_MAXTASKS; ++r) {
       uint32_t k = chOrder[r];
